@@ -523,6 +523,20 @@ def make_cases(ctx, ci, cfg, clean):
             steps.append({"plan": [[list(sid), rng.choice(acts[kind])]]})
         steps.append({"plan": []})
         cases.append({"id": None, "cfg": cfg, "steps": steps, "worker": False, "kind": "multi", "action": "multi"})
+    # forced interleaving (thread-pool saving): a metadata flush of the saver thread fails while a pooled chunk
+    # write is still in flight (made slow with the injector).  save_from loses the future of the chunk whose
+    # flush raised, so close() records the exception and renames the directory without waiting for that write,
+    # which then lands -- or fails -- after the rename.  Legal and harmless (the key is marked broken).
+    w_open = [s_ for s_, kd, w in pts if w and kd == "open_w"]
+    w_write = [s_ for s_, kd, w in pts if w and kd == "write"]
+    m_open = [s_ for s_, kd, w in pts if kd == "open_w" and s_[2].endswith("metadata.json") and s_[3] >= 1]
+    if w_open and m_open:
+        for slow, tag in ((w_open[0], "late_open"), (w_write[0] if w_write else None, "late_write")):
+            if slow is None:
+                continue
+            for mo in m_open[:2]:
+                cases.append({"id": None, "cfg": cfg, "worker": False, "kind": tag, "action": "raise",
+                              "steps": [{"plan": [[list(mo), "raise"]], "delay": [[list(slow), 1.0]]}, {"plan": []}]})
     # a plugin (not a file operation) fails, then a clean retry
     dts = graphs.data_types(cfg["graph"])
     plug = [d for d in dts if d != "lone"]
